@@ -8,7 +8,7 @@ git -C $WT diff > /tmp/seedconfirm_$ID.diff
 echo "== files changed:"; git -C $WT diff --stat | tail -3
 echo "== demo with change:"; (cd $WT && PYTHONPATH=$WT/src timeout 900 /venv/bin/python $OUT/demo.py 2>&1 | grep -v conda | tail -3); W=${PIPESTATUS[0]}
 ( cd $WT && PYTHONPATH=$WT/src timeout 900 /venv/bin/python $OUT/demo.py >/dev/null 2>&1 ); W=$?
-( cd /repo && PYTHONPATH=/repo/src timeout 900 /venv/bin/python $OUT/demo.py >/dev/null 2>&1 ); O=$?
+( cd /tmp/seed_clean && PYTHONPATH=/tmp/seed_clean/src timeout 900 /venv/bin/python $OUT/demo.py >/dev/null 2>&1 ); O=$?
 echo "demo exit with change: $W   without: $O"
 echo "== test suite with change:"
 ( cd $WT && PYTHONPATH=$WT/src /venv/bin/python -m pytest -q -p no:cacheprovider --timeout=900 -n 8 src/pandapipes/test 2>&1 | tail -1 )
